@@ -79,6 +79,9 @@ class ObsRunner(msglayer.Runner):
                     n = "?" + n
                 self.dlog("eb:" + (n if n in ("NotObservable", "ObservationCancelled")
                                    else f"T{EXC_NAMES.index(n)}" if n in EXC_NAMES else n))
+                if self.script.get("eb_cancels"):
+                    # the application's errback cancels the observation it is being told the end of
+                    req.observation.cancel()
             req.observation.register_callback(lambda m: self.dlog("cb:" + self.mstr(m)),
                                               _suppress_deprecation=True)
             req.observation.register_errback(eb, _suppress_deprecation=True)
